@@ -123,7 +123,7 @@ def check_item(item):
                      detail='identical problem family' if v == 'unsat' else 'same problems as an earlier combination')
             out.append(r)
             continue
-        aliases = symbol_aliases(probs + base_probs)
+        aliases = symbol_aliases(probs + base_probs, (item['left'], item['right']) if item['kind'] == 'strong' else item['task'][2:5])
 
         def build(kw, probs=probs):
             ctx = AliasCtx(aliases, **kw)
